@@ -536,7 +536,7 @@ func (c *Ctx) ord3() {
 	wire := c.wireCapable()
 	type spec struct {
 		typ, counter, op, queue string
-		write               bool
+		write                   bool
 	}
 	specs := []spec{
 		{"typePUBACK", "orderedTxs.Acked", "Delete", "atLeastOnce", false},
